@@ -81,6 +81,13 @@ pub fn emit_runtime_crate(dir: &Path, crate_name: &str, defs: &[Def]) -> Emitted
 			e.push_str(&format!(".mel::<{t}>()"));
 		}
 		src.push_str(&format!("\tv.push({e});\n"));
+		// in-place decoding (`decode_into`) is only reached through boxes and arrays
+		if d.has_encodable_value() && !d.is_all_skipped_enum() && (d.transparent || d.name.bytes().map(usize::from).sum::<usize>() % 3 == 0) {
+			src.push_str(&format!(
+				"\tv.push(Entry::new::<Box<{t}>>(\"Box<{n}>\").enc::<Box<{t}>>().dec::<Box<{t}>>().mem::<Box<{t}>>());\n\tv.push(Entry::new::<[{t}; 2]>(\"[{n}; 2]\").enc::<[{t}; 2]>().dec::<[{t}; 2]>().mem::<[{t}; 2]>());\n",
+				n = d.name
+			));
+		}
 	}
 	src.push_str("\tv\n}\n\nfn main() {\n\tstd::process::exit(psc_checks::programs::child_main(entries()));\n}\n");
 	write_file(&dir.join("src/main.rs"), &src);
@@ -402,6 +409,12 @@ fn defs_for(ctx: &Ctx, count: usize, mel_bias: bool, salt: u64) -> Vec<Def> {
 	defs
 }
 
+/// `Box<D7>` / `[D7; 2]` -> `D7`
+fn base_name(entry: &str) -> &str {
+	let s = entry.trim_start_matches("Box<").trim_start_matches('[');
+	s.split(|c: char| c == '>' || c == ';').next().unwrap_or(s).trim()
+}
+
 fn crash_signature(d: &Def) -> String {
 	if d.is_all_skipped_enum() {
 		"C05/encode-crash/all-variants-skipped".to_string()
@@ -503,7 +516,7 @@ pub fn run_runtime_batch(ctx: &Ctx, report: &mut Report, property: &str, mel_bia
 				report.stats.exclude("failure-belonging-to-the-other-program-property");
 				continue;
 			}
-			if let Some(d) = defs.iter().find(|d| d.name == ty) {
+			if let Some(d) = defs.iter().find(|d| d.name == base_name(&ty)) {
 				let tail = sig.split_once('/').map(|(_, t)| t.to_string()).unwrap_or(sig.clone());
 				let sig = if property == "C13" || sig.starts_with("C13/") { sig.clone() } else { format!("C05/{tail}") };
 				found.push((
@@ -516,7 +529,7 @@ pub fn run_runtime_batch(ctx: &Ctx, report: &mut Report, property: &str, mel_bia
 		match out.crashed {
 			None => break,
 			Some((ty, how)) => {
-				let Some(d) = defs.iter().find(|d| d.name == ty).cloned() else {
+				let Some(d) = defs.iter().find(|d| d.name == base_name(&ty)).cloned() else {
 					report.broken.push(format!("generated program died in unknown type {ty}"));
 					break;
 				};
